@@ -405,41 +405,102 @@ def r27c(ctx, run):
                         "remaining paths and names get one symbol" % (a, b, img, len(new), len(samples)))
         else:
             run.ok(fn.site(clo["ln"]), "component normalisation evaluated on %d sample components: no collision beyond the reported '.'->'-' and .capy-strip ones" % len(samples))
-    # src skip: index tested vs index dropped, for is_mod in {true,false}
-    tested = None
-    for n in walk(fn.body):
-        if n.get("k") == "local" and canon(n["p"]) == "has_src":
-            for m in synq.mcalls(n["init"], "nth"):
-                tested = synq.int_value(m["a"][0])
-    if tested is None:
-        raise LookupError("has_src .nth(k)")
-    stmts = fn.body["s"]
-    for is_mod in (True, False):
-        consumed = 0
-        dropped = None
-        for s in stmts:
-            cs = canon(s)
-            if s["k"] == "local" and canon(s["p"]) == "mod_name":
-                if "if is_mod {components.next()}" in cs.replace(" ", "").replace("{", "{").replace("ifis_mod", "if is_mod ") or "components.next()" in cs:
-                    init = s["init"]
-                    if init["k"] == "if" and canon(init["c"]) == "is_mod":
-                        if is_mod and "components.next()" in canon(init["t"]):
-                            consumed += 1
-                        elif not is_mod and init.get("e") is not None and "components.next()" in canon(init["e"]):
-                            consumed += 1
+    from absint import Obj, Term
+    # the whole of get_components evaluated on sample paths (project files below the working directory, module files below the module directory):
+    # two different files must not get the same (module name, parts) - except through the collisions already reported
+    MOD, CWD = "/mods", "/proj"
+
+    class PSX(PS):
+        pass
+
+    def comps(pth):
+        return [c for c in str(pth).split("/") if c]
+
+    class GI(NI):
+        def default_method(self, recv, m, args, e):
+            if isinstance(recv, PS):
+                if m == "is_sub_dir_of":
+                    a_, b_ = comps(recv), comps(args[0])
+                    return a_[:len(b_)] == b_
+                if m == "strip_prefix":
+                    a_, b_ = comps(recv), comps(args[0])
+                    return PS("/".join(a_[len(b_):])) if a_[:len(b_)] == b_ else None
+                if m == "components":
+                    return list(comps(recv))
+                if m in ("unwrap", "as_path", "to_path_buf"):
+                    return recv
+            if isinstance(recv, list):
+                if m == "filter":
+                    return [x for x in recv if self.call_closure(args[0], [x]) is not False]
+                if m == "nth":
+                    return recv[args[0]] if isinstance(args[0], int) and 0 <= args[0] < len(recv) else None
+                if m == "map":
+                    return [self.call_closure(args[0], [x]) for x in recv]
+                if m in ("skip",):
+                    return recv[args[0]:]
+                if m == "collect":
+                    return recv
+            if isinstance(recv, str) and not isinstance(recv, PS):
+                if m in ("as_os_str", "to_str", "to_string_lossy", "as_ref"):
+                    return recv
+            if m == "is_some_and":
+                return False if recv is None else bool(self.call_closure(args[0], [recv]))
+            if m == "unwrap" and recv is not None:
+                return recv
+            return super().default_method(recv, m, args, e)
+
+    def components_of(pth):
+        it = GI(funcs={"Path::new": lambda i, a: PS(a[0]), "std::path::Path::new": lambda i, a: PS(a[0]), "env::current_dir": lambda i, a: PS(CWD),
+                       "std::env::current_dir": lambda i, a: PS(CWD), "Cow::Borrowed": lambda i, a: a[0], "Cow::Owned": lambda i, a: a[0], "String::from": lambda i, a: a[0]},
+                macros={"matches": lambda i, e, env: False, "dbg": lambda i, e, env: None})
+        it.methods["lookup"] = lambda i, r, a: pth
+        r = it.run_fn(fn, {"self": Obj("self", **{"0": Term("key")}), "mod_dir": PS(MOD), "interner": Term("interner")})
+        mod_name = r.fields.get("mod_name") if isinstance(r, Obj) else None
+        parts = r.fields.get("sub_parts") if isinstance(r, Obj) else None
+        if not isinstance(parts, list):
+            raise CannotEstablish("sub_parts is %r" % (parts,))
+        return (mod_name, tuple(str(x) for x in parts))
+    proj = ["config.capy", "src/config.capy", "a/config.capy", "a/src/config.capy", "b/src/config.capy", "src/src/config.capy", "src/a/config.capy"]
+    mods = ["m/config.capy", "m/src/config.capy", "m/a/config.capy", "n/src/config.capy", "m/src/a/config.capy", "m/src/src/config.capy"]
+    images = {}
+    failed = None
+    for rel, root in [(x, CWD) for x in proj] + [(x, MOD) for x in mods]:
+        try:
+            images.setdefault(components_of(root + "/" + rel), []).append((root == MOD, rel))
+        except (Panic, CannotEstablish) as ce:
+            failed = "cannot establish the components of `%s`: %s" % (rel, getattr(ce, "what", ce))
+            break
+    if failed:
+        run.finding(F, "components-unknown", fn.file, fn.ln, failed)
+    else:
+        seen_cls = set()
+        for img, pre in sorted(images.items(), key=str):
+            for i_ in range(len(pre)):
+                for j_ in range(i_ + 1, len(pre)):
+                    (m1, r1), (m2, r2) = pre[i_], pre[j_]
+                    c1, c2 = r1.split("/"), r2.split("/")
+                    # classes: (known) a project file's first directory dropped because `src` follows it; (by layout) a module's <mod>/src/p and <mod>/p
+                    def dropped_first(c):
+                        return len(c) > 2 and c[1] == "src"
+                    if not m1 and not m2 and (dropped_first(c1) or dropped_first(c2)) and (c1[1:] if dropped_first(c1) else c1) == (c2[1:] if dropped_first(c2) else c2):
+                        cls = "src-skip:is_mod=false"
+                    elif m1 and m2 and c1[0] == c2[0] and ([x for i, x in enumerate(c1) if not (i == 1 and x == "src")] == [x for i, x in enumerate(c2) if not (i == 1 and x == "src")]):
+                        cls = "module-src-root"
                     else:
-                        consumed += 1
-            if s["k"] == "expr" and s["e"]["k"] == "if" and canon(s["e"]["c"]) == "has_src" and "components.next()" in canon(s["e"]["t"]):
-                dropped = consumed
-        what = "is_mod=%s: `src` tested at index %s, component dropped at index %s" % (is_mod, tested, dropped)
-        if dropped is None:
-            run.ok(fn.site(), what + " (no drop)")
-        elif dropped == tested:
-            run.ok(fn.site(), what)
-        else:
-            run.finding(F, "src-skip:is_mod=%s" % str(is_mod).lower(), fn.file, fn.ln,
-                        what + ": the skip removes a different component than the one compared with \"src\" — "
-                        "for a non-module path `foo/src/bar.capy` and `baz/src/bar.capy` both become [src, bar]")
+                        cls = "collision:%s~%s" % (("mod:" if m1 else "") + r1, ("mod:" if m2 else "") + r2)
+                    if cls in seen_cls:
+                        continue
+                    seen_cls.add(cls)
+                    if cls == "module-src-root":
+                        run.exempt(fn.site(), "`<mod>/src/p` and `<mod>/p` get the same parts",
+                                   "a module's sources live in <mod>/src, which is the module's root by layout; a module with the same path inside and outside src is not a supported layout")
+                    else:
+                        run.finding(F, cls, fn.file, fn.ln,
+                                    "the files `%s` and `%s` (%s) both get the symbol parts %s: same-named entities in them share one symbol%s"
+                                    % (r1, r2, "module files" if m1 else "project files", list(img[1]),
+                                       " - for a project file the component in front of `src` is dropped, not `src` itself" if cls.startswith("src-skip") else ""))
+        if not seen_cls - {"module-src-root"}:
+            run.ok(fn.site(), "get_components evaluated on %d sample paths: no two files share their parts" % (len(proj) + len(mods)))
     run.ok(fn.site(), "transformations examined: %d" % n_tr)
 
 
